@@ -217,6 +217,14 @@ def handle : Handler
       let some p := v.asNat? | return "bad-op"
       return s!"ok v={pF (lnorm CF ws p)}"
     | none => return "bad-op"
+  | .sym "lnormr" :: args => Id.run do
+    let some ws := (kw? args "ws").bind Val.asFloats? | return "bad-op"
+    match kw? args "p" with
+    | some (.sym "inf") => if ws.isEmpty then return "err value" else return s!"ok v={pF (lnormInf ws)}"
+    | some v =>
+      let some p := v.asNat? | return "bad-op"
+      return s!"ok v={pF (lnormA CF Float.isFinite ws p)}"
+    | none => return "bad-op"
   | .sym "dist" :: args => Id.run do
     let some kind := (kw? args "kind").bind Val.asSym? | return "bad-op"
     let some p := (kw? args "p").bind Val.asNat? | return "bad-op"
